@@ -211,6 +211,53 @@ theorem jan1_le (z : Int) : daysFromCivil (yearOf z) 1 1 ≤ z := by
     · rw [jan1_of (yearOf z) (eraOf z) (yoeOf (doeOf z) - 1) (by omega) (by omega) (by omega)]
       omega
 
+/-! ### round trip -/
+theorem civilFromDays_eq (z : Int) :
+    civilFromDays z = (if monthIOf z ≤ 2 then myOf z + 1 else myOf z, (monthIOf z).toNat,
+      (doyOf z - (153 * mpOf z + 2) / 5 + 1).toNat) := rfl
+
+/-- the civil date of a day number determines the day number (and month, day are in range) -/
+theorem daysFromCivil_civilFromDays (z : Int) :
+    daysFromCivil (civilFromDays z).1 (civilFromDays z).2.1 (civilFromDays z).2.2 = z ∧
+    1 ≤ (civilFromDays z).2.1 ∧ (civilFromDays z).2.1 ≤ 12 ∧ 1 ≤ (civilFromDays z).2.2 ∧ (civilFromDays z).2.2 ≤ 31 := by
+  rw [civilFromDays_eq]
+  dsimp only
+  obtain ⟨p0, p1⟩ := doyOf_range z
+  obtain ⟨y0, y1⟩ := yoe_range z
+  have hz := z_eq z
+  have hdoy : doyOf z = doeOf z - (365 * yoeOf (doeOf z) + yoeOf (doeOf z) / 4 - yoeOf (doeOf z) / 100) := rfl
+  have hmp : mpOf z = (5 * doyOf z + 2) / 153 := rfl
+  have hmy : myOf z = yoeOf (doeOf z) + eraOf z * 400 := rfl
+  have hm : monthIOf z = if mpOf z < 10 then mpOf z + 3 else mpOf z - 9 := rfl
+  generalize doyOf z = doy at *
+  generalize mpOf z = mp at *
+  generalize monthIOf z = mi at *
+  generalize myOf z = my at *
+  generalize yoeOf (doeOf z) = yoe at *
+  generalize eraOf z = era at *
+  generalize doeOf z = doe at *
+  have hmi : 1 ≤ mi ∧ mi ≤ 12 := by split at hm <;> omega
+  have hd : 1 ≤ doy - (153 * mp + 2) / 5 + 1 ∧ doy - (153 * mp + 2) / 5 + 1 ≤ 31 := by omega
+  refine ⟨?_, by omega, by omega, by omega, by omega⟩
+  simp only [daysFromCivil]
+  have c1 : (((mi.toNat : Nat) : Int)) = mi := by omega
+  have c2 : (((doy - (153 * mp + 2) / 5 + 1).toNat : Nat) : Int) = doy - (153 * mp + 2) / 5 + 1 := by omega
+  have n1 : (mi.toNat ≤ 2) ↔ (mi ≤ 2) := by omega
+  have n2 : (mi.toNat > 2) ↔ (mi > 2) := by omega
+  simp only [n1, n2, c1, c2]
+  by_cases hle : mi ≤ 2
+  · have hgt : ¬ mi > 2 := by omega
+    simp only [hle, hgt, if_true, if_false]
+    have : mp = mi + 9 := by split at hm <;> omega
+    have e1 : (my + 1 - 1) / 400 = era := by omega
+    rw [e1]
+    omega
+  · have hgt : mi > 2 := by omega
+    simp only [hle, hgt, if_true, if_false]
+    have : mp = mi - 3 := by split at hm <;> omega
+    have e1 : my / 400 = era := by omega
+    rw [e1]
+    omega
 /-! ### convexity of the period keys in the local second -/
 
 /-- `K` takes the same value at every point between two points with equal value. -/
